@@ -34,6 +34,9 @@ def run(ctx):
             trees.append({'pkg': pkg, 'kind': kind, 'imports': imports, 'shift': len(trees)})
             # the same file reached through a symbolic link at the top-level package (its target directory has another name)
             trees.append({'pkg': pkg, 'kind': kind, 'imports': imports, 'link': len(trees) + 1, 'shift': len(trees) + 5})
+            # a search-path entry inside the package, at every depth
+            for k in range(1, depth + 1):
+                trees.append({'pkg': pkg, 'kind': kind, 'imports': imports, 'inner_path': k, 'shift': len(trees) + 2})
     ctx.log('%d unit cases, %d file rewrites' % (len(units), len(trees)))
     results = corelib.run_real(build, units + trees, worker='c17_worker.py')
     model = None
@@ -62,12 +65,12 @@ def run(ctx):
         if r['got'] != r['expected']:
             bad = [(g, e) for g, e in zip(r['got'], r['expected']) if g != e]
             ctx.fail('AstTreeModuleProfiler rewrote a relative import differently from Python\'s resolution (or touched names/aliases)',
-                     {'finding_class': None, 'case': {'pkg': t['pkg'], 'kind': t['kind']}, 'first_differences(got,expected)': bad[:4]})
+                     {'finding_class': None, 'case': {k: t[k] for k in ('pkg', 'kind', 'link', 'inner_path') if k in t}, 'first_differences(got,expected)': bad[:4]})
         nontrivial.add(json.dumps([t['pkg'], t['kind']]))
     ctx.coverage.update({
         'evaluations': len(units) + len(trees), 'distinct_nontrivial': len(nontrivial),
         'rule': 'every (depth <= %d, file kind in {module, __init__, __main__}, level valid at that position, target in {none, 1, 2, 3 segments}) against the real '
-                'function, importlib.util.resolve_name and the model; plus real file rewrites by AstTreeModuleProfiler for every depth/kind with all levels and aliased names' % maxd,
+                'function, importlib.util.resolve_name and the model; plus real file rewrites by AstTreeModuleProfiler for every depth/kind with all levels and aliased names, also through a symlinked top-level package and with a sys.path entry inside the package' % maxd,
         'unit_cases': len(units), 'file_rewrites': len(trees), 'traces_validated_against_impl': len(units) - kdiff,
         'correspondence_disagreements': kdiff, 'exhaustive': True})
     ctx.coverage['samples'].append({'unit': units[-1], 'result': results[len(units) - 1]})
